@@ -898,6 +898,34 @@ def patch_asyncio_module(mod):
             mod._LOOP_LOCKS[k] = CLock()
 
 
+def wait_finished(ctl, wall):
+    """Wait for the controlled execution to end.  Returns True if it ended (ok / hang).  If the wall-clock
+    budget runs out the execution is `stuck` (possibly just slow: dropped by the caller) - unless it made no
+    progress at all for 4 s (no scheduler step, no loop iteration, no event, no tick): then some thread is blocked
+    in a way the scheduler cannot see (a real blocking call introduced into the code under test) and the
+    execution is a hang."""
+    import time as _t
+    t0 = _t.time()
+    last, still = None, 0
+    while True:
+        if ctl.finished.wait(0.5):
+            return True
+        snap = (ctl.steps, ctl.zero_iters, ctl.now, len(ctl.events), ctl.lines)
+        if snap == last:
+            still += 1
+        else:
+            last, still = snap, 0
+        if still >= 8:
+            with ctl.mu:
+                if not ctl.finished.is_set():
+                    ctl.log('Hang', why='blocked-outside-scheduler', thr=[ctl.current or '?'])
+                    ctl._end('hang')
+            return True
+        if _t.time() - t0 > wall:
+            ctl.status = 'stuck'
+            return False
+
+
 def result_payload(ctl, extra=None):
     d = {'status': ctl.status, 'events': list(ctl.events), 'decisions': list(ctl.decisions),
          'steps': ctl.steps, 'lines': ctl.lines}
